@@ -255,8 +255,8 @@ PROPS = {
     },
     "C18": {
         "ext_in_quick": True,
-        "lean_targets": ["Pep508.Theorems.Tables", "Pep508.Theorems.C18", "Pep508.Theorems.C18b", "Pep508.Theorems.NonVacuityC"],
-        "theorems": ["Pep508.Tables.scheme_tables", "Pep508.Tables.schemes_are_schemes", "Pep508.C18.scan_is_rule", "Pep508.C18.rule_url", "Pep508.C18.rule_ambiguous", "Pep508.C18.parse_url_is_rule", "Pep508.parseUrl_total",
+        "lean_targets": ["Pep508.Theorems.Tables", "Pep508.Theorems.C18", "Pep508.Theorems.C18b", "Pep508.Theorems.NonVacuityC", "Pep508.Theorems.C19d"],
+        "theorems": ["Pep508.C19.fragment_verbatim", "Pep508.C19.no_fragment", "Pep508.C19.normalize_idempotent", "Pep508.Tables.scheme_tables", "Pep508.Tables.schemes_are_schemes", "Pep508.C18.scan_is_rule", "Pep508.C18.rule_url", "Pep508.C18.rule_ambiguous", "Pep508.C18.parse_url_is_rule", "Pep508.parseUrl_total",
                      "Pep508.C18.expand_meets_spec", "Pep508.C18.spec_functional", "Pep508.C18.expand_iff_spec", "Pep508.C18.reference_anywhere",
                      "Pep508.C18.set_variable", "Pep508.C18.unset_variable", "Pep508.C18.project_root_unset", "Pep508.C18.lookupVar_none_iff",
                      "Pep508.C18.no_rescan", "Pep508.C18.dollar_without_brace", "Pep508.C18.unclosed_reference", "Pep508.C18.empty_name",
@@ -291,8 +291,8 @@ PROPS = {
     },
     "C19": {
         "ext_in_quick": True,
-        "lean_targets": ["Pep508.Theorems.Tables", "Pep508.Theorems.C08b", "Pep508.Theorems.C19", "Pep508.Theorems.C19b", "Pep508.Theorems.C19c", "Pep508.Theorems.NonVacuityC"],
-        "theorems": ["Pep508.C19.strip_host_suffix", "Pep508.C19.strip_host_localhost", "Pep508.C19.strip_host_empty_host", "Pep508.C19.strip_host_other_host", "Pep508.C19.strip_host_no_host", "Pep508.Tables.archive_lists", "Pep508.Tables.archive_extensions_accepted", "Pep508.C08.unnamed_roundtrip_full", "Pep508.C08.unnamed_layout_full", "Pep508.C19.unnamed_no_panic", "Pep508.C19.unnamed_err_boundary", "Pep508.C19.unnamed_call_span", "Pep508.C19.scan_is_rule", "Pep508.C19.parse_unnamed_url_is_rule", "Pep508.C19.rule_is_first_stop", "Pep508.C19.token_no_ws", "Pep508.C19.ws_in_brackets", "Pep508.C19.accepts", "Pep508.C19.accepts_marker", "Pep508.C19.roundtrip", "Pep508.C19.roundtrip_marker", "Pep508.C19.bracket_ambiguity", "Pep508.C19.old_requirement_end", "Pep508.C19.archive_rule", "Pep508.C19.scheme_rule", "Pep508.C19.path_unsupported", "Pep508.C19.path_never_accepted",
+        "lean_targets": ["Pep508.Theorems.Tables", "Pep508.Theorems.C08b", "Pep508.Theorems.C19", "Pep508.Theorems.C19b", "Pep508.Theorems.C19c", "Pep508.Theorems.C19d", "Pep508.Theorems.NonVacuityC"],
+        "theorems": ["Pep508.C19.fragment_verbatim", "Pep508.C19.no_fragment", "Pep508.C19.relative_of_head", "Pep508.C19.components_clean", "Pep508.C19.normalize_idempotent", "Pep508.C19.normalize_starts_with_slash", "Pep508.C19.normalize_no_dot_segments", "Pep508.C19.normalize_segments", "Pep508.C19.escapes_iff", "Pep508.C19.slashes_and_dots_irrelevant", "Pep508.C19.double_slash_irrelevant_path", "Pep508.C19.dot_irrelevant_path", "Pep508.C19.trailing_slash_irrelevant_path", "Pep508.C19.strip_host_suffix", "Pep508.C19.strip_host_localhost", "Pep508.C19.strip_host_empty_host", "Pep508.C19.strip_host_other_host", "Pep508.C19.strip_host_no_host", "Pep508.Tables.archive_lists", "Pep508.Tables.archive_extensions_accepted", "Pep508.C08.unnamed_roundtrip_full", "Pep508.C08.unnamed_layout_full", "Pep508.C19.unnamed_no_panic", "Pep508.C19.unnamed_err_boundary", "Pep508.C19.unnamed_call_span", "Pep508.C19.scan_is_rule", "Pep508.C19.parse_unnamed_url_is_rule", "Pep508.C19.rule_is_first_stop", "Pep508.C19.token_no_ws", "Pep508.C19.ws_in_brackets", "Pep508.C19.accepts", "Pep508.C19.accepts_marker", "Pep508.C19.roundtrip", "Pep508.C19.roundtrip_marker", "Pep508.C19.bracket_ambiguity", "Pep508.C19.old_requirement_end", "Pep508.C19.archive_rule", "Pep508.C19.scheme_rule", "Pep508.C19.path_unsupported", "Pep508.C19.path_never_accepted",
                      "Pep508.C19.scheme_url_unsupported", "Pep508.C19.scheme_url_never_accepted", "Pep508.C19.relpath_unsupported",
                      "Pep508.C19.relpath_never_accepted", "Pep508.C19.archive_name_unsupported", "Pep508.C19.archive_name_extras_unsupported",
                      "Pep508.C19.archive_name_never_accepted", "Pep508.C19.scheme_not_a_name", "Pep508.C19.span_conventions"],
